@@ -10,10 +10,11 @@
 (*               compared component-wise (ActVec may contain duplicates)   *)
 (*   Test        stop when no vector changed                               *)
 (***************************************************************************)
-EXTENDS SolverOps, Randomization, TLC
+EXTENDS SolverOps, DetValues, Randomization, TLC
 
 CONSTANTS NS, NA, NE, PDs, Gammas, RewSet, EpsSet, Tests, Budgets, Resets, NumGadgets,
-          MaxScale, MaxOuter, ActVec        \* ActVec[a] = action vector of action index a
+          MaxScale, MaxOuter, ActVec,       \* ActVec[a] = action vector of action index a
+          Bug    \* "none" | "all_components" (a state counts as changed only if EVERY component changed): anti-vacuity
 
 GammaPI == {<<1, 2>>, <<1, 4>>}
 RewPI == {-2, 0, 1, 3}
@@ -21,6 +22,7 @@ EpsPI == {<<1, 1>>, <<1, 4>>}
 VecDistinct == <<(<<0, 0>>), (<<0, 1>>)>>
 VecDup == <<(<<1, 0>>), (<<1, 0>>)>>
 VecMixed == <<(<<1, 0>>), (<<0, 1>>), (<<1, 0>>)>>
+VecPartial == <<(<<1, 0>>), (<<1, 1>>), (<<0, 1>>)>>      \* actions 1 and 2 differ in one component only
 
 VARIABLES m, eps, test, budget, reset,
           V, sc, pol,                 \* current values V/sc and policy (action indices)
@@ -35,12 +37,17 @@ S == 1..NS
 A == 1..NA
 E == 1..NE
 Rows(PD) == {r \in [E -> 0..PD] : SumTo(r, NE) = PD}
+Canon(a) == CHOOSE b \in A : ActVec[b] = ActVec[a] /\ \A b2 \in A : ActVec[b2] = ActVec[a] => b <= b2
 Gadgets ==
   UNION { UNION {
       LET nexts == RandomSubset(NumGadgets, [S -> [A -> [E -> S]]])
           rews  == RandomSubset(NumGadgets, [S -> [A -> [E -> RewSet]]])
           pks   == RandomSubset(NumGadgets, [S -> [A -> Rows(PD)]])
-      IN { [ns |-> NS, na |-> NA, ne |-> NE, next |-> nx, rew |-> rw, pk |-> pk,
+      \* the action VECTOR is the action: indices with equal vectors share one set of tables
+      IN { [ns |-> NS, na |-> NA, ne |-> NE,
+            next |-> [s \in S |-> [a \in A |-> nx[s][Canon(a)]]],
+            rew |-> [s \in S |-> [a \in A |-> rw[s][Canon(a)]]],
+            pk |-> [s \in S |-> [a \in A |-> pk[s][Canon(a)]]],
             PD |-> PD, GN |-> g[1], GD |-> g[2]] :
              nx \in nexts, rw \in RandomSubset(2, rews), pk \in RandomSubset(2, pks) }
       : g \in Gammas } : PD \in PDs }
@@ -87,7 +94,8 @@ EvalReturn ==   \* PI_EvalReturnsPreUpdateIterate
 Improve ==
   /\ pc = "improve"
   /\ LET np == [s \in S |-> FirstGreedy(AtScale(m, sc), V, s)]
-     IN /\ changed' = Cardinality({s \in S : ActVec[np[s]] # ActVec[pol[s]]})
+         Differs(v, w) == IF Bug = "all_components" THEN \A k \in 1..Len(v) : v[k] # w[k] ELSE v # w
+     IN /\ changed' = Cardinality({s \in S : Differs(ActVec[np[s]], ActVec[pol[s]])})
         /\ pol' = np
   /\ pc' = "test"
   /\ UNCHANGED <<m, eps, test, budget, reset, V, sc, ev, esc, estep, prev, psc, lastc, lastcs, iter, status>>
@@ -109,4 +117,18 @@ ReturnedGreedy   == status = "converged" => \A s \in S : pol[s] \in GreedySet(At
 (* an evaluation that converged within its budget satisfies the documented test on the returned iterate *)
 ReturnedIterateTested ==
   (pc = "improve" /\ estep < budget) => Below(lastc, lastcs)
+
+(* C01 for policy iteration on deterministic gadgets (closed-form values): when the run stops by policy  *)
+(* stability and the last evaluation converged within its budget, the returned policy loses at most       *)
+(* eps/gamma (span) or 2*eps/gamma (max_diff); under max_diff the returned values are within eps/gamma of *)
+(* the returned policy's own value                                                                       *)
+PINearOptimal ==
+  (NE = 1 /\ status = "converged" /\ estep < budget) =>
+     \A s \in S :
+        LET loss == RSub(DetOptimalValue(m, s), DetPolicyValue(m, pol, s))
+        IN /\ RLe(<<0, 1>>, loss)
+           /\ RLe(loss, <<(IF test = "span" THEN 1 ELSE 2) * eps[1] * m.GD, eps[2] * m.GN>>)
+PIValuesNearPolicyValue ==
+  (NE = 1 /\ status = "converged" /\ estep < budget /\ test = "max_diff") =>
+     \A s \in S : RLe(RAbs(RSub(RNorm(<<V[s], sc>>), DetPolicyValue(m, pol, s))), <<eps[1] * m.GD, eps[2] * m.GN>>)
 =============================================================================
